@@ -17,6 +17,7 @@
 #include <math.h>
 #include <stdbool.h>
 #include <stdint.h>
+#include <stdlib.h>
 #include <string.h>
 
 #include "edn_internal.h"
@@ -572,55 +573,38 @@ static double parse_double_from_buffer(const char* start, const char* end) {
         return result;
     }
 
-    /* Fall back to strtod() for edge cases */
-#ifdef EDN_ENABLE_EXPERIMENTAL_EXTENSION
-    /* For strtod fallback with underscores, we need to create a cleaned buffer */
-    char buffer[512];
-    size_t buf_idx = 0;
+    /* Fall back to strtod() for edge cases. It needs a NUL-terminated copy
+     * (without underscores); literals longer than the stack buffer get a heap
+     * copy instead of being misread. */
+    size_t len = end - start;
+    char stack_buffer[512];
+    char* buffer = stack_buffer;
 
-    for (const char* p = start; p < end && buf_idx < sizeof(buffer) - 1; p++) {
-        if (*p != '_') {
-            buffer[buf_idx++] = *p;
+    if (len >= sizeof(stack_buffer)) {
+        buffer = malloc(len + 1);
+        if (buffer == NULL) {
+            return NAN;
         }
     }
 
-    if (buf_idx >= sizeof(buffer)) {
-        return NAN;
+    size_t buf_idx = 0;
+    for (const char* p = start; p < end; p++) {
+#ifdef EDN_ENABLE_EXPERIMENTAL_EXTENSION
+        if (*p == '_') {
+            continue;
+        }
+#endif
+        buffer[buf_idx++] = *p;
     }
-
     buffer[buf_idx] = '\0';
 
-    errno = 0;
-    char* endptr;
-    result = strtod(buffer, &endptr);
+    result = strtod(buffer, NULL); /* overflow gives infinity, underflow a subnormal or zero */
 
-    if (errno == ERANGE) {
-        return result; /* Infinity or underflow to zero */
+    if (buffer != stack_buffer) {
+        free(buffer);
     }
 
     return result;
-#else
-    /* No underscores, can use buffer directly */
-    size_t len = end - start;
-    char buffer[512];
-
-    if (len >= sizeof(buffer)) {
-        return NAN;
-    }
-
-    memcpy(buffer, start, len);
-    buffer[len] = '\0';
-
-    errno = 0;
-    char* endptr;
-    result = strtod(buffer, &endptr);
-
-    if (errno == ERANGE) {
-        return result; /* Infinity or underflow to zero */
-    }
-
-    return result;
-#endif
 }
 
 /**
